@@ -8,7 +8,7 @@ From Verif Require Import lib.Wire c03.Int64 c03.Model c03.Spec c03.Proofs_Int64
      c03.Proofs_Frames3 c03.Proofs_Kill c03.Proofs_OpsMem c03.Proofs_Done c03.Proofs_OpsDone c03.Proofs_OpsNew
      c03.Proofs_OpsOpen c03.Proofs_Hist c03.Proofs_Mon c03.Proofs_Link2 c03.Proofs_Transfer c03.Proofs_OpsRepar
      c03.Proofs_SetPeer c03.Proofs_Hist2 c03.Proofs_Mon2 c03.Proofs_Keys c03.Proofs_Refs c03.Proofs_RefInv c03.Proofs_GC
-     c03.Proofs_Prio c03.Proofs_Cap c03.Proofs_CapInv.
+     c03.Proofs_Prio c03.Proofs_Cap c03.Proofs_CapInv c03.Proofs_Just c03.Proofs_Just2.
 Import ListNotations.
 Local Open Scope Z_scope.
 
@@ -116,8 +116,6 @@ Proof.
   rewrite anextT_gc. cbn [step astep]. exists [], []. split; [reflexivity | intros cand []].
 Qed.
 
-(* the extra checks proved: the priority threshold and the per-subnet cap *)
-Definition ck_proved (ck : checks) : Prop := ck_just ck = false.
 
 Lemma prio_step : forall c st a m t sz prio, cfg_ok c -> InvG c st a -> (forall x, ostat m x = use_of (scopes st) x) ->
   wf_opF c st a (OReserve t sz prio) ->
@@ -134,12 +132,12 @@ Proof.
   rewrite add_own_reach in Hy. rewrite add_own_limit, L'. apply (P eq_refl y Hy).
 Qed.
 
-Theorem full_from : forall ck c ops st a m i, ck_proved ck ->
+Theorem full_from : forall ck c ops st a m i,
   cfg_ok c -> InvG c st a -> (forall t, ostat m t = use_of (scopes st) t) ->
   forallb op_shape ops = true -> callers_run c a m i (model_trace c st ops) = None ->
   mon_run_gen ck c a m i (model_trace c st ops) = [] /\ wf_histF c st a ops.
 Proof.
-  intros ck c ops. induction ops as [|o r IH]; intros st a m i Kj LO IG L Sh Cr; [split; [reflexivity | exact Logic.I]|].
+  intros ck c ops. induction ops as [|o r IH]; intros st a m i LO IG L Sh Cr; [split; [reflexivity | exact Logic.I]|].
   cbn [forallb] in Sh. apply andb_true_iff in Sh. destruct Sh as [Sh1 Sh2].
   cbn [model_trace wf_histF] in *. pose proof (astep_pickedF c st a o LO IG) as Hd.
   pose proof (step_full c st a o LO IG) as Hi.
@@ -149,14 +147,16 @@ Proof.
             forall y, In y (areach (anextT c st a o) t) ->
             l_mem (a_limit c (anextT c st a o) y) = max_int64 \/ mem (ostat m' y) <= prio_threshold (a_limit c (anextT c st a o) y) prio).
   { intros t sz prio -> Wf. apply (prio_step c st a m t sz prio LO IG L Wf). }
+  assert (Js : wf_opF c st a o -> snd (step c st o) = 1 -> refusal_justified c a m o = true).
+  { intros Wf. destruct IG as (IL & _). apply (just_step c st a m o LO IL L). destruct o; exact Wf. }
   assert (Cp : wf_opF c st a o -> forall i0 inb usefd ip, o = OOpenConn i0 inb usefd (Some ip) -> snd (step c st o) = 0 ->
             cap_ok c (open_ips (anextT c st a o) false) ip = true).
   { intros Wf. destruct IG as (IL & _ & _ & _ & Ci). apply (cap_step c st a o LO IL Ci). destruct o; exact Wf. }
-  destruct (step c st o) as [st' cls] eqn:Es. cbn [fst snd] in Hi, Cp.
+  destruct (step c st o) as [st' cls] eqn:Es. cbn [fst snd] in Hi, Cp, Js.
   cbn [callers_run mon_run_gen] in *.
   destruct (caller_ok a o && no_overflow m o) eqn:C; [|discriminate].
   apply andb_true_iff in C. destruct C as [C1 C2].
-  pose proof (wfF_of_bool c st a m o IG L C1 C2 Sh1) as Wf. specialize (Hd Wf). specialize (Hi Wf). specialize (Cp Wf).
+  pose proof (wfF_of_bool c st a m o IG L C1 C2 Sh1) as Wf. specialize (Hd Wf). specialize (Hi Wf). specialize (Cp Wf). specialize (Js Wf).
   destruct Hd as (pre & post & El & Hm).
   set (x := model_obs st st' o cls) in *. set (m' := apply_delta m (o_delta x)) in *.
   assert (L' : forall t, ostat m' t = use_of (scopes st') t) by (apply obs_follows, L).
@@ -174,10 +174,10 @@ Proof.
   assert (Msk : mon_step_gen ck c a m o x = inl (anextT c st a o, m')).
   { apply Ms.
     - intros _ t sz prio Eo C0 y Hy. apply (Pr t sz prio Eo Wf C0 m' L' y Hy).
-    - intros X. congruence.
+    - intros _ Cj. apply Js, Cj.
     - intros _ i0 inb usefd ip Eo C0. apply (Cp i0 inb usefd ip Eo C0). }
   rewrite Ms0 in Cr. rewrite Msk.
-  destruct (IH st' _ m' (i + 1) Kj LO Hi L' Sh2 Cr) as [M Wh]. split; [exact M | split; [exact Wf | exact Wh]].
+  destruct (IH st' _ m' (i + 1) LO Hi L' Sh2 Cr) as [M Wh]. split; [exact M | split; [exact Wf | exact Wh]].
 Qed.
 
 Lemma init_obs : forall c t, ostat [] t = use_of (scopes (init_state c)) t.
@@ -194,19 +194,20 @@ Theorem history_full : forall c ops, disciplined c ops ->
 Proof.
   intros c ops (Wc & Sh & Cr). pose proof (config_wf_ok c Wc) as LO.
   apply (history_full_from c ops _ _ LO (init_invG c LO)).
-  apply (full_from ck_core c ops (init_state c) astate0 [] 0 eq_refl LO (init_invG c LO) (init_obs c) Sh Cr).
+  apply (full_from ck_core c ops (init_state c) astate0 [] 0 LO (init_invG c LO) (init_obs c) Sh Cr).
 Qed.
 
-Theorem monitor_accepts_full : forall ck c ops, ck_proved ck -> disciplined c ops ->
+Theorem monitor_accepts_ck : forall ck c ops, disciplined c ops ->
   mon_run_gen ck c astate0 [] 0 (model_trace c (init_state c) ops) = [].
 Proof.
-  intros ck c ops K (Wc & Sh & Cr). pose proof (config_wf_ok c Wc) as LO.
-  apply (full_from ck c ops (init_state c) astate0 [] 0 K LO (init_invG c LO) (init_obs c) Sh Cr).
+  intros ck c ops (Wc & Sh & Cr). pose proof (config_wf_ok c Wc) as LO.
+  apply (full_from ck c ops (init_state c) astate0 [] 0 LO (init_invG c LO) (init_obs c) Sh Cr).
 Qed.
 
-Corollary monitor_accepts_prio_cap : forall c ops, disciplined c ops ->
-  mon_run_gen (mkChecks true false true) c astate0 [] 0 (model_trace c (init_state c) ops) = [].
-Proof. intros c ops. exact (monitor_accepts_full (mkChecks true false true) c ops eq_refl). Qed.
+(* THE monitor, with every check switched on *)
+Theorem monitor_accepts_full : forall c ops, disciplined c ops ->
+  mon_run c astate0 [] 0 (model_trace c (init_state c) ops) = [].
+Proof. intros c ops. exact (monitor_accepts_ck ck_all c ops). Qed.
 
 (* "the number of simultaneously open connections from one IP subnet never exceeds
    the configured per-subnet cap": whenever a connection with an IP endpoint is
@@ -217,7 +218,7 @@ Corollary subnet_cap_full : forall c ops i inb usefd ip, disciplined c (ops ++ [
   cap_ok c (open_ips (run_aT c (init_state c) astate0 (ops ++ [OOpenConn i inb usefd (Some ip)])) false) ip = true.
 Proof.
   intros c ops i inb usefd ip (Wc & Sh & Cr) C0. pose proof (config_wf_ok c Wc) as LO.
-  destruct (full_from ck_core c _ (init_state c) astate0 [] 0 eq_refl LO (init_invG c LO) (init_obs c) Sh Cr) as [_ Wh].
+  destruct (full_from ck_core c _ (init_state c) astate0 [] 0 LO (init_invG c LO) (init_obs c) Sh Cr) as [_ Wh].
   assert (G : forall l st a, InvG c st a -> wf_histF c st a (l ++ [OOpenConn i inb usefd (Some ip)]) ->
             snd (step c (run c st l) (OOpenConn i inb usefd (Some ip))) = 0 ->
             cap_ok c (open_ips (run_aT c st a (l ++ [OOpenConn i inb usefd (Some ip)])) false) ip = true).
